@@ -23,7 +23,7 @@ ASSUMPTIONS = ["messages are well-formed by construction; chunk framing lines us
 PROBES = ["bare_lf_message", "mixed_eol_message", "chunked_with_trailers", "close_delimited", "pipelined", "cut_inside_crlf",
           "body_contains_crlf", "continue_prefix", "bytewise"]
 BOUNDS = dict(quick=dict(messages=4, body=60), thorough=dict(messages=4, body=60))
-TIERS = dict(quick=dict(cases=30000, wall=40.0), thorough=dict(cases=4000000, wall=420.0))
+TIERS = dict(quick=dict(cases=100000, wall=60.0), thorough=dict(cases=4000000, wall=420.0))
 SIM_TIME_UNIT = "reads"
 
 
